@@ -292,6 +292,63 @@ def rule_r4(chk, facts, P):
         raise AnalysisBroken('only %d PushLocHandle(-1) sites found' % n_)
 
 
+def rule_r6(chk, facts, P):
+    chk.rule('C13-R6', 'between PushLocHandle(-1) and the PopLocHandle() that closes it only definitions are made: no '
+             'function called there reaches the local-symbol lookup FindLocNode() (other than through ExpandStrSymbol(), '
+             'the expansion of {..} inside the name being defined) - an expression evaluated inside the escape cannot '
+             'see the labels local to the macro expansion it stands in', min_instances=30)
+    tgt = [f for f in P.all_funcs() if f.name == 'FindLocNode' and f.unit.name == 'asmpars.c']
+    if len(tgt) != 1:
+        raise AnalysisBroken('FindLocNode not found')
+    tgt = tgt[0]
+    memo = {}
+
+    def reaches(g):
+        if g not in memo:
+            memo[g] = tgt in P.closure([g], stop=lambda x: x.name == 'ExpandStrSymbol')
+        return memo[g]
+    n_ = 0
+    for f in P.all_funcs():
+        pushes = [(b, i, ln) for b, i, ln, n in f.calls('PushLocHandle') if const_val(n[2][0]) == -1]
+        for k, (b, i, ln) in enumerate(sorted(pushes, key=lambda t: t[2])):
+            n_ += 1
+            seen = set()
+            work = [(b, i + 1)]
+            bad = []
+            defined = []
+            while work:
+                bb, ii = work.pop()
+                els = f.blocks[bb]['elems']
+                stop = False
+                for j in range(ii, len(els)):
+                    ex = els[j][1]
+                    if any(m[0] == 'call' and callee_name(m) == 'PopLocHandle' for m in walk_own(ex)):
+                        stop = True
+                        break
+                    for m in walk_own(ex):
+                        if m[0] == 'call':
+                            for g in P.call_targets(f, m) if hasattr(P, 'call_targets') else [P.resolve(f.unit, callee_name(m))] if callee_name(m) else []:
+                                if g is not None and (callee_name(m) or '').startswith('Enter') and m[2]:
+                                    defined.append(nocast(m[2][0]))
+                                elif g is not None and reaches(g):
+                                    bad.append((els[j][0], g.name, nocast(m[2][0]) if m[2] else None))
+                if stop:
+                    continue
+                for t, l in f.succs().get(bb, ()):
+                    if t not in seen:
+                        seen.add(t)
+                        work.append((t, 0))
+            # a lookup of the very name that is being defined inside the escape finds the new global: fine
+            bad = [x for x in bad if x[2] is None or x[2] not in defined]
+            ok = not bad
+            chk.ob('C13-R6', '%s:%s:escape@%d' % (f.unit.name, f.name, k + 1), ok, f.loc(bad[0][0] if bad else ln),
+                   'only definitions inside the escape' if ok else
+                   '%s() is called while the local symbol space is switched off and looks symbols up: a macro-local label '
+                   'named in that expression is not found (or a global of the same name is taken instead)' % bad[0][1])
+    if n_ < 30:
+        raise AnalysisBroken('only %d PushLocHandle(-1) sites found' % n_)
+
+
 def rule_r5(chk, facts, P):
     chk.rule('C13-R5', 'asmpars.c/asmallg.c: a loop that walks the chain of open sections (innermost first) or a '
              'FORWARD/PUBLIC list and compares names stops at the first match: the edge on which the comparison '
@@ -337,5 +394,6 @@ def run(chk, facts, info):
     rule_r2(chk, facts, P)
     rule_r3(chk, facts, P)
     rule_r4(chk, facts, P)
+    rule_r6(chk, facts, P)
     chk.note('Decided: case folding before keyed lookups/inserts, local-before-global lookup order, redefinition guards, '
              'balance of global-scope escapes. Not decided: section-tree resolution results, temporary-symbol binding.')
